@@ -15,6 +15,14 @@ def sh(cmd, cwd=None, env=None, timeout=3600):
     p = subprocess.run(cmd, cwd=cwd, env=env or ENV, stdout=subprocess.PIPE, stderr=subprocess.STDOUT, text=True, shell=isinstance(cmd, str), timeout=timeout)
     return p.returncode, p.stdout
 
+def drop_build_output(tree):
+    """removes what verify.py built for a scratch tree (one output directory per tree and property)."""
+    import hashlib
+    tag = hashlib.sha1(tree.encode()).hexdigest()
+    for d in glob.glob(os.path.join(ROOT, ".build", "alt-%s-*" % tag[:8])) + glob.glob(os.path.join(ROOT, ".build", "mod-%s" % tag[:10])):
+        shutil.rmtree(d, ignore_errors=True)
+
+
 def main():
     prop = sys.argv[1]
     src_wt = "/tmp/seed-" + prop
@@ -113,8 +121,7 @@ def main():
     finally:
         sh(["git", "-C", "/repo", "worktree", "remove", "--force", wt])
         shutil.rmtree(wt, ignore_errors=True)
-        for d in glob.glob(os.path.join(ROOT, ".build", "mod-*")):
-            shutil.rmtree(d, ignore_errors=True)
+        drop_build_output(wt)
     readme = os.path.join(seed, "README.md")
     n = int(os.environ.get("SEED_ROUND", "1"))
     while os.path.exists(os.path.join(ROOT, "seeded", "%s-%d" % (prop, n))):
